@@ -160,11 +160,11 @@ def d2_state(chk, repo):
         if isinstance(st, ast.Assign) and isinstance(st.targets[0], ast.Name):
             t_ = r.term(st.value, at=st)
             if r.eq(t_, r.spec("self._orig_field.array")):
-                chk.ob(ROT + ".rotate::scalar-branch-condition", cond_equiv(r, path_term(r, st), r.spec("self._orig_field.nvdim == 1"),
+                chk.ob(ROT + ".rotate::scalar-branch-condition", reached_iff(r, st, r.spec("self._orig_field.nvdim == 1"),
                                                                             [nv], pre=lambda x: x[0] in (1, 3), lo=1), "C18.D2",
                        f"scalar values are taken under {r.show(path_term(r, st))}", r.f, st)
             elif (r.ctx.head_of(t_) or ("",))[0] == "sub" and any(r.ctx.atoms[a_][0][:2] == ("call", ".apply") for a_ in r.ctx.all_atoms(t_)):
-                chk.ob(ROT + ".rotate::vector-branch-condition", cond_equiv(r, path_term(r, st), r.spec("self._orig_field.nvdim == 3"),
+                chk.ob(ROT + ".rotate::vector-branch-condition", reached_iff(r, st, r.spec("self._orig_field.nvdim == 3"),
                                                                             [nv], pre=lambda x: x[0] in (1, 3), lo=1), "C18.D2",
                        f"vectors are rotated under {r.show(path_term(r, st))}; the constructor admits 1 and 3 components only", r.f, st)
     chk.ob(ROT + ".rotate::unknown-method-refused", any(n_ == "ValueError" for x, n_ in r.raises()), "C18.D2",
@@ -312,7 +312,7 @@ def d4_geometry(chk, repo):
                f"n={r.show(nn) if nn is not None else None}; expected the requested n or _calculate_new_n(new region)", r.f, sites[-1].call)
         for st in r.stmts():
             if isinstance(st, ast.Assign) and (decode_call(r.ctx, r.term(st.value, at=st)) or ("",))[0].endswith("_calculate_new_n"):
-                chk.ob(ROT + ".rotate::default-resolution-iff-none", cond_equiv(r, path_term(r, st), r.spec("n is None")), "C18.D4",
+                chk.ob(ROT + ".rotate::default-resolution-iff-none", reached_iff(r, st, r.spec("n is None")), "C18.D4",
                        f"the resolution is computed under {r.show(path_term(r, st))}; expected: no n was requested", r.f, st)
         val = a.get("value")
         cv = decode_call(r.ctx, val) if val is not None else None
